@@ -6,7 +6,9 @@ set_option linter.unusedSimpArgs false
   Go → Lean map (all in /repo/types):
     types.go GuardedIsAssignable                → `asg`   (identity/Any shortcut, then right-hand decomposition of
                                                    Unit / NotUndef (with fall-through) / Optional / alias / Variant, in that order)
-    <X>type.go (t *XType) IsAssignable          → the `.x` arm of `asgRecv`
+    <X>type.go (t *XType) IsAssignable          → the `.x` arm of `asgRecv`  (timestamptype.go: `min.Before/Equal ∧ max.After/Equal` = `Rng.sub` on
+                                                   nanoseconds since year 1; scalartype.go lists the default Timestamp among Scalar's members —
+                                                   its SemVer member has no counterpart, the term language has no SemVer type)
     varianttype.go allAssignableTo              → `asgAllR`;  tupleAssignableTo → inlined (`if size.hi ≤ 0 then true else if no types then o ⊒ Any else` the declared types at positions below size.hi, = `tupZip [o] types size.hi`)
     tupletype.go IsAssignable(Tuple) loop       → `tupZip`
     structtype.go IsAssignable(Struct)          → `structMember` / `structAll`;  IsAssignable(Hash) (the by-specification
@@ -62,6 +64,9 @@ def Alias.key : Alias → Ty
   | .rich => .variant [.str, .numeric]
 
 def floatAll : Ty := .float (-Fl.maxFinite) Fl.maxFinite
+
+/-- the default Timestamp: `[MinTime, MaxTime]` = `[time.Time{}, time.Unix(MaxInt64 - 62135596800, 999999999)]` in nanoseconds since year 1 -/
+def tstampAll : Rng := ⟨0, 9223372036854775807 * 1000000000 + 999999999⟩
 
 /-- accepts the (unmodelled) `TypeSet` type: only Any/Unit/RichData and wrappers around them do -/
 def accTypeSet : Ty → Bool
@@ -121,7 +126,8 @@ def asgRecv (a b : Ty) : Bool :=
   | .scalar =>
       (match b with
        | .scalar | .scalarData => true
-       | b' => asg .str b' || asg .numeric b' || asg (.bool none) b' || asg (.regexp "") b' || asg (.tspan Rng.all) b')
+       | b' => asg .str b' || asg .numeric b' || asg (.bool none) b' || asg (.regexp "") b' || asg (.tspan Rng.all) b' ||
+               asg (.tstamp tstampAll) b')
   | .scalarData =>
       (match b with
        | .scalarData => true
@@ -151,6 +157,7 @@ def asgRecv (a b : Ty) : Bool :=
   | .float lo hi => (match b with | .float lo' hi' => decide (Fl.effLo lo ≤ Fl.effLo lo') && decide (Fl.effHi hi' ≤ Fl.effHi hi) | _ => false)
   | .bool v => (match b with | .bool v' => v.isNone || v == v' | _ => false)
   | .tspan r => (match b with | .tspan r' => r.sub r' | _ => false)
+  | .tstamp r => (match b with | .tstamp r' => r.sub r' | _ => false)
   | .strSz r =>
       (match b with
        | .strVal s => r.contains s.length
